@@ -39,6 +39,10 @@ SHAPES = {
     '3x3': ('tri', 'ElementTriP1', 'ElementTriP1'),
     '3x6': ('tri', 'ElementTriP1', 'ElementTriP2'),
     '4x4': ('quad', 'ElementQuad1', 'ElementQuad1'),
+    # edge-midpoint rule: the three vertex functions of P2 VANISH at every quadrature point while their gradients do not
+    # (a kernel that skips "zero" functions by looking at values only gets the gradient terms wrong)
+    '6x6': ('tri-mid', 'ElementTriP2', 'ElementTriP2'),
+    '6x3': ('tri-mid', 'ElementTriP2', 'ElementTriP1'),
 }
 _BASES = {}
 
@@ -48,9 +52,12 @@ def bases(shape):
     if shape not in _BASES:
         kind, eu, ev = SHAPES[shape]
         mesh = {'tri': lambda: fem.MeshTri().refined(1), 'line': lambda: fem.MeshLine(np.linspace(0, 1, 4)),
-                'quad': lambda: fem.MeshQuad().refined(1)}[kind]()
-        ub = fem.Basis(mesh, getattr(fem, eu)(), intorder=3)
-        vb = fem.Basis(mesh, getattr(fem, ev)(), intorder=3)
+                'quad': lambda: fem.MeshQuad().refined(1), 'tri-mid': lambda: fem.MeshTri()}[kind]()
+        kw = {'intorder': 3}
+        if kind == 'tri-mid':
+            kw = {'quadrature': (np.array([[0.5, 0.5, 0.0], [0.0, 0.5, 0.5]]), np.full(3, 1.0 / 6.0))}
+        ub = fem.Basis(mesh, getattr(fem, eu)(), **kw)
+        vb = fem.Basis(mesh, getattr(fem, ev)(), **kw)
         _BASES[shape] = (ub, vb)
     return _BASES[shape]
 
